@@ -11,7 +11,8 @@ Tie / search:
      structs, vfuncs, invokers and property accessors from a supplied dump) run through the REAL
      pipeline (scanpipe); the emitted GIR is converted 1:1 to a tree and `girWellFormed` is
      evaluated on it by the Lean driver: THAT is the property check.  The real introspectable /
-     skip flags and the number of loop rounds are compared with the pass model (correspondence).
+     skip flags, the accessor names left by the property analysis and the number of loop rounds
+     are compared with the pass model (correspondence).
  (2) `girWellFormed` on every GIR file shipped or expected in the repository.
  (3) the writer's closure / destroy / length indices against the model (public GIRWriter only).
 """
@@ -136,7 +137,10 @@ INC_GOOD = [lambda: P(T('IncRec')), lambda: P(T('IncBoxed')), lambda: T('IncEn')
 INC_HIDDEN = [lambda: P(T('IncHidden')), lambda: T('IncHAl'), lambda: T('IncHCb')]
 EXT_CB = [lambda: T('IncCb'), lambda: T('IncAl'), lambda: T('GCallback'), lambda: T('GFunc')]
 EXT_CB_EXEMPT = [lambda: T('GDestroyNotify'), lambda: T('GAsyncReadyCallback'), lambda: T('IncDn')]
-ELEMS = ['utf8', 'gint', 'Inc.Rec', 'gpointer', 'Unknown', 'Inc.Hidden', 'guint8', 'filename']
+ELEMS = ['utf8', 'gint', 'Inc.Rec', 'gpointer', 'Unknown', 'Inc.Hidden', 'guint8', 'filename', 'Inc.Nope', 'Foo.Nope']
+# (type ...) annotations naming something that does not exist (here, in an included namespace, in a
+# namespace that is not included) or that exists
+TYPE_ANN = ['Inc.Nope', 'Foo.Nope', 'Bar.Baz', 'Inc.Rec', 'Inc.Hidden', 'GLib.Nope']
 
 
 class B(object):
@@ -227,6 +231,9 @@ class B(object):
             self.features.add('exotic')
             return rng.choice(EXOTIC)(), [], 'exotic'
         if r < 0.58:
+            if role in ('param', 'ret', 'field') and rng.random() < 0.3:
+                self.features.add('type-annotation')
+                return T('gpointer'), ['type ' + rng.choice(TYPE_ANN)], 'typeann'
             self.features.add('unresolved')
             return rng.choice(UNRESOLVED)(), [], 'unresolved'
         if r < 0.68:
@@ -1389,7 +1396,7 @@ def run(ctx):
                 'chains base <- alias|callback|record-field ... <- user of depth 1-6; the exhaustive chain family '
                 '(every kind sequence x 2 bases x all declaration orders); plus every GIR file shipped or expected '
                 'in the repository. Every namespace goes through the REAL pipeline; girWellFormed (Lean) is evaluated '
-                'on the emitted GIR; real flags / skips / loop rounds are compared with the pass model. non-trivial = '
+                'on the emitted GIR; real flags / skips / accessor names / loop rounds are compared with the pass model. non-trivial = '
                 'the GIR has at least one judged type and at least one element marked introspectable="0" (scan) or at '
                 'least one judged type (shipped); distinct by content hash of declarations + comments.',
         'samples': samples,
